@@ -4,5 +4,5 @@ EXTENDS Alphabets, TLC, Json
 VARIABLE x
 Init == x = 0
 Stop == FALSE /\ UNCHANGED x
-ASSUME PrintT(ToJson([L1 |-> L1, L2 |-> L2, L0 |-> L0, Wrap2 |-> Wrap2, LB |-> LB, LQ |-> LQ, RText |-> RText, RDest |-> RDest, RTitle |-> RTitle, WrapU |-> WrapU, LM |-> LM, WrapM |-> WrapM, Nest |-> Nest, NestSizes |-> NestSizes, Twins |-> Twins, LD |-> LD, WrapD |-> WrapD, HtmlNames1 |-> HtmlNames1, HtmlNames6 |-> HtmlNames6, HtmlLines |-> HtmlLines, L3 |-> L3, TailHeads |-> TailHeads, TailEmpties |-> TailEmpties, TailTails |-> TailTails, FenceOpen |-> FenceOpen, FenceBody |-> FenceBody]))
+ASSUME PrintT(ToJson([L1 |-> L1, L2 |-> L2, L0 |-> L0, Wrap2 |-> Wrap2, LB |-> LB, LQ |-> LQ, RText |-> RText, RDest |-> RDest, RTitle |-> RTitle, WrapU |-> WrapU, LM |-> LM, WrapM |-> WrapM, Nest |-> Nest, NestSizes |-> NestSizes, Twins |-> Twins, LD |-> LD, WrapD |-> WrapD, HtmlNames1 |-> HtmlNames1, HtmlNames6 |-> HtmlNames6, HtmlLines |-> HtmlLines, L3 |-> L3, TailHeads |-> TailHeads, TailEmpties |-> TailEmpties, TailTails |-> TailTails, FenceOpen |-> FenceOpen, FenceBody |-> FenceBody, ParaPrefixes |-> ParaPrefixes, Lookahead |-> Lookahead]))
 =============================================================================
